@@ -27,6 +27,17 @@ def child(x):
     return x + 100
 
 
+class Foreign(object):
+    """a foreign synchronous wrapper (think: tracing decorator of another library): exposes the wrapped callable as
+    `.fn`, has no `asynq` / `is_pure_async_fn` of its own, its call is the direct call of what it wraps"""
+
+    def __init__(self, fn):
+        self.fn = fn
+
+    def __call__(self, *args, **kwargs):
+        return self.fn(*args, **kwargs)
+
+
 def build(deco, defk, bodyk):
     """-> (env, LOG): env holds f (function) or C / Sub / inst / subinst / falsy with the attribute `meth`"""
     LOG = []
@@ -153,13 +164,24 @@ def build(deco, defk, bodyk):
     return env, LOG
 
 
-def access(env, defk, via):
+def access(env, defk, via, wrap):
+    """-> (object to call, explicit leading arguments).  Wrapped objects are kept per (via, wrap) for the whole
+    history, so that whatever the helpers memoise on a wrapper is still there at the next call through it."""
+    pre = [env["inst"]] if defk == "method" and via == "cls" else []
+    if wrap and (via, wrap) in env["wrappers"]:
+        return env["wrappers"][(via, wrap)], pre
     if defk == "function":
-        return env["f"], []
-    if defk == "method" and via == "cls":
-        return env["C"].meth, [env["inst"]]
-    holder = {"inst": "inst", "subinst": "subinst", "falsy": "falsy", "cls": "C", "sub": "Sub"}[via]
-    return getattr(env[holder], "meth"), []
+        obj = env["f"]
+    elif defk == "method" and via == "cls":
+        obj = env["C"].meth
+    else:
+        holder = {"inst": "inst", "subinst": "subinst", "falsy": "falsy", "cls": "C", "sub": "Sub"}[via]
+        obj = getattr(env[holder], "meth")
+    for _ in range(wrap):
+        obj = Foreign(obj)
+    if wrap:
+        env["wrappers"][(via, wrap)] = obj
+    return obj, pre
 
 
 def call(obj, conv, pos, kw, want_future):
@@ -190,22 +212,28 @@ def call(obj, conv, pos, kw, want_future):
     raise ValueError(conv)
 
 
+def classify(obj):
+    return {"is_async": int(bool(is_async_fn(obj))), "is_pure": int(bool(is_pure_async_fn(obj))),
+            "has_async": int(bool(has_async_fn(obj))), "get_async_fn_none": int(get_async_fn(obj) is None)}
+
+
 def run_history(case):
     asynq.scheduler.reset()
     env, LOG = build(case["deco"], case["defk"], case["body"])
+    env["wrappers"] = {}
     got = []
     for o in case["h"]:
         del LOG[:]
         g = {}
         try:
-            obj, pre = access(env, case["defk"], o["via"])
-            g["cls"] = {"is_async": int(bool(is_async_fn(obj))), "is_pure": int(bool(is_pure_async_fn(obj))),
-                        "has_async": int(bool(has_async_fn(obj))), "get_async_fn_none": int(get_async_fn(obj) is None)}
+            obj, pre = access(env, case["defk"], o["via"], o.get("wrap", 0))
+            g["cls"] = classify(obj)
             kw = dict((n, v) for n, v in o["kw"])
             # the yield convention goes through what the classification prescribes (pure: the call itself is the future)
             v, isf = call(obj, o["conv"], pre + list(o["pos"]), kw, {"pure": o["cls"]["is_pure"] == 1})
             g["out"] = v
             g["fut"] = isf
+            g["cls_again"] = classify(obj)      # the helpers memoise on some objects: the answer must not change
         except BaseException as e:
             g["raised"] = "%s: %s" % (type(e).__name__, e)
             asynq.scheduler.reset()
@@ -240,7 +268,7 @@ def differs(o, g):
         d.append("outcome")
     if g["fut"] is not None and g["fut"] != o["res"]["fut"]:
         d.append("future")
-    if g["cls"] != o["cls"]:
+    if g["cls"] != o["cls"] or g.get("cls_again") != o["cls"]:
         d.append("classify")
     return d
 
